@@ -24,7 +24,7 @@ HeadsQ == {<<253>> \o p : p \in [1..2 -> {0, 252, 253, 255}]}
 TailsQ == {<<>>, <<1, 2, 3>>}
 LongQ == {Ramp(20), Ramp(33), <<20>> \o Ramp(20), <<253, 253, 0>> \o Ramp(253)}
 BufsQuick == SeqsUpTo(Alpha6, 2) \cup Cat(HeadsQ, TailsQ) \cup LongQ
-BufsThorough == SeqsUpTo(Alpha6, 5) \cup Cat(Heads, Tails) \cup LongBufs
+BufsThorough == SeqsUpTo(Alpha6, 4) \cup Cat(Heads, Tails) \cup LongBufs
 NArgsMC == {0, 1, 2, 3, 20, HUGE}
 BackArgsMC == {1, 2, 3}
 NArgsQ == {0, 1, 3, HUGE}
